@@ -44,8 +44,10 @@ CLAIMED = {
  "C15": dict(cat="proof", tech="Coq simulation proof (both directions) for optimize() + model-implementation correspondence of the node table",
    text="C15_sem / C15_sem_everywhere: for every graph and every complete execution before optimize() there is one after it applying the same side-effecting nodes "
         "(everything but NoOpDecisions) in the same order, and conversely, for every node, any chain length, any sharing and cycles, unbounded execution depth; "
-        "C15_same_invalid_leaves. Consistency of the links after optimize() and the node count are decided by the correspondence (full node table incl. incoming records) "
-        "and the oracle (check_consistency, items count), not by a theorem yet.",
+        "C15_same_invalid_leaves. C15_links / C15_links_resolved: after optimize() both checks of check_consistency hold at every node reachable from the root, for every table linked "
+        "consistently throughout and for every table as resolve() leaves it (invariant over the traversal: every node outside the set of spliced-out nodes has truthful records and points to "
+        "such nodes only; chains have no repetition because every chain node has exactly one incoming record); C15_count / C15_count_resolved: items() does not grow (every transition "
+        "after is a path before); C15_table_size. The correspondence compares the full node table incl. incoming records, the oracle runs check_consistency and counts items.",
    note=TB + "Modelled: coq/GraphOps.v.", ref="5/C15"),
  "C09": dict(cat="proof", tech="Coq proof of language membership by structural induction over the regex AST (builder correctness + C15_sem for optimize) + model-implementation correspondence from the AST + re.fullmatch oracle",
    text="C09_language: for every expression r of the dialect (any nesting of groups, alternation, classes, quantifiers ? * + {n} {n,} {n,m}) and every complete execution of the graph "
